@@ -22,6 +22,7 @@ SimNext == IF Unblocking THEN Unblock /\ w' = 0 ELSE
            \/ \E s \in 1..2 : PosCheck /\ w' = s
            \/ \E s \in 1..WU, k \in Keys : Publish(k) /\ w' = s
            \/ Env /\ w' = 0
+           \/ \E s \in 1..4, t \in {"stream", "join", "state"} : Jump(t) /\ w' = s
 
 SimSpec == Init /\ w = 0 /\ [][SimNext]_simvars
 =============================================================================
